@@ -410,7 +410,9 @@ func (e *Env) fieldOf(v V, fi int) V {
 
 func (e *Env) importedPkg(name string) *types.Package {
 	if e.pkg == nil {
-		return nil
+		// contracts declared for a package outside /repo (`package io`): names resolve
+		// against the loaded packages
+		return e.x.prog.pkgByName(name)
 	}
 	if e.pkg.Scope().Lookup(name) != nil {
 		return nil
@@ -910,6 +912,15 @@ func (e *Env) evalCall(n *CCall) V {
 				return V{T: boolT, S: "(<= " + pt + " " + e.cur.alloc + ")"}
 			}
 			e.fail("allocated() needs a slice, pointer or map")
+		case "hasType":
+			// hasType(x, T): the dynamic type of interface value x is the concrete type T
+			v := e.eval(n.Args[0])
+			t, ok := e.tryType(n.Args[1])
+			if !ok {
+				e.fail("hasType() needs a type as its second argument")
+			}
+			x.boxFuncs(t)
+			return V{T: boolT, S: fmt.Sprintf("(= (itag %s) %d)", v.S, x.typeID(t))}
 		case "heapUnchanged":
 			// heapUnchanged(): every object that existed in the old state has the same
 			// contents now (maps, slices' backing arrays, structs, globals)
@@ -1375,6 +1386,17 @@ func (e *Env) evalPlace(c CExpr) *Place {
 			return x.placeOf(v)
 		}
 	case *CSel:
+		// package-qualified package-level variable
+		if id, ok := n.X.(*CIdent); ok && !e.isValueName(id.Name) {
+			if pkg := e.importedPkg(id.Name); pkg != nil {
+				if v, ok := pkg.Scope().Lookup(n.Name).(*types.Var); ok {
+					if g := x.prog.globalFor(v); g != nil {
+						return x.value(nil2frame(), g).Pl
+					}
+				}
+				e.fail("%s.%s is not a package-level variable", id.Name, n.Name)
+			}
+		}
 		base := e.eval(n.X)
 		var bp *Place
 		if _, isPtr := base.T.Underlying().(*types.Pointer); isPtr || base.Pl != nil {
@@ -1404,6 +1426,14 @@ func (e *Env) evalPlace(c CExpr) *Place {
 		if c, ok := e.cells[n.Name]; ok {
 			if _, shadowed := e.names[n.Name]; !shadowed {
 				return x.placeOf(c)
+			}
+		}
+		if _, shadowed := e.names[n.Name]; e.pkg != nil && !shadowed {
+			// a package-level variable of the contract's own package
+			if v, ok := e.pkg.Scope().Lookup(n.Name).(*types.Var); ok {
+				if g := x.prog.globalFor(v); g != nil {
+					return x.value(nil2frame(), g).Pl
+				}
 			}
 		}
 		if e.frame != nil && e.frame.fn != nil {
